@@ -6,7 +6,16 @@ proof gate (coq/Props/C12.v over the regenerated table coq/Gen/G_sites.v + the u
             terms   order_combine_term / (multi_)coupling_term_handle_JW  vs  Model/JW.v (vm_compute)  + dense product (oracle)
             mpo     TermList -> MPOGraph -> MPO -> dense  vs  product of explicit Jordan-Wigner operators; anticommutators
             grouped GroupedSite of 2-3 heterogeneous sites x charges policy  vs  kron with the JW of the left sites
+                    (also sites built with sort_charge=False and the SAME site object used several times; the sites handed in are
+                    re-verified through their own state labels afterwards)
+            book    random sequences of site-transforming calls (change_charge, sort_charge, set_common_charges, GroupedSite / group_sites
+                    with every policy, add_op / rename_op / remove_op, deep copies): after EVERY call ALL sites of the pool are re-verified
+                    against the documentation operators through their state labels (label -> basis index -> matrix elements)
             corr    correlation_function(autoJW) on random states  vs  dense <psi| A_i B_j |psi>
+            mpsterm every MPS-level consumer of MPS._term_to_ops_list (expectation_value_term, term_correlation_function_right/left,
+                    term_list_correlation_function_right, apply_local_term, expectation_value_terms_sum) with odd and even fermionic terms
+                    vs dense Jordan-Wigner operators; the triple (ops, i_min, has_extra_JW) of _term_to_ops_list for JW_from_right in
+                    {None, False, True}  vs  Model/JW.v term_to_ops_list (vm_compute, T12_term_to_ops_list_flag) and vs dense operators
 """
 import itertools
 import os
@@ -23,6 +32,7 @@ TOL = 1e-10
 
 F17_KEY = 'C12:GroupedSite:charges=drop:heterogeneous-dims:IndexError'
 F18_KEY = 'C12:GroupedSite:charges=same:after-set_common_charges:charge_to_JW_parity-list:TypeError'
+F121_KEY = 'C12:set_common_charges:sort_charge=False:UnboundLocalError-leg'
 
 
 # ---------------------------------------------------------------------------------------------------------------------
@@ -367,6 +377,221 @@ def grouped_cases(rng, ctx):
     return cases
 
 
+NOSORT_POOL = [spec('SpinHalfSite', conserve='Sz', sort_charge=False), spec('SpinHalfSite', conserve='parity', sort_charge=False),
+               spec('SpinSite', S=1.5, conserve='parity', sort_charge=False), spec('SpinSite', S=1.0, conserve='Sz', sort_charge=False),
+               spec('ClockSite', q=3, conserve='Z', sort_charge=False)]
+BOOK_POOL = GROUP_POOL + NOSORT_POOL + [spec('BosonSite', Nmax=3, conserve='parity'), spec('SpinSite', S=1.5, conserve='Sz'),
+                                        spec('SpinHalfSite', conserve='None'), spec('SpinHalfHoleSite', cons_N='parity', cons_Sz='Sz'),
+                                        spec('SpinSite', S=1.0, conserve='dipole'), spec('BosonSite', Nmax=2, conserve='dipole')]
+
+
+def grouped_cases_bookkeeping(rng, ctx):
+    """groupings with sites whose leg is NOT charge-sorted (the non-default sort_charge=False) and groupings that use the SAME site
+    object several times ([site] * n): the grouped site AND the sites handed in are verified"""
+    cases = []
+    combos = [(a, b) for a in NOSORT_POOL for b in NOSORT_POOL]
+    for a in NOSORT_POOL:
+        for b in rng.sample(GROUP_POOL, ctx.pick(3, len(GROUP_POOL))):
+            combos.append((a, b) if rng.random() < 0.5 else (b, a))
+    combos += [tuple(rng.choice(NOSORT_POOL + GROUP_POOL) for _ in range(3)) for _ in range(ctx.pick(10, 100))]
+    for sites in combos:
+        if np.prod([orc.doc_site(*s).dim for s in sites]) > 64:
+            continue
+        for pol in ['same', 'drop', 'independent']:
+            c = {'sites': list(sites), 'charges': pol, 'share': rng.random() < 0.5}
+            if pol == 'same':
+                c['common'] = 'same'
+            cases.append(c)
+    for s0 in NOSORT_POOL + GROUP_POOL:
+        for n in [2, 3]:
+            if orc.doc_site(*s0).dim ** n > 64:
+                continue
+            for pol in ['same', 'drop', 'independent']:
+                cases.append({'sites': [s0] * n, 'charges': pol, 'share': True})
+    return cases
+
+
+def book_cases(rng, ctx, n):
+    cases = []
+    for cidx in range(n):
+        n0 = rng.randint(1, 3)
+        sites = [rng.choice(BOOK_POOL) for _ in range(n0)]
+        if rng.random() < 0.6:
+            sites[rng.randrange(n0)] = rng.choice(NOSORT_POOL)
+        dims = [orc.doc_site(*s_).dim for s_ in sites]
+        steps = []
+        for _ in range(rng.randint(2, 6)):
+            ns = len(dims)
+            kind = rng.choice(['group'] * 5 + ['group_sites', 'set_common', 'set_common', 'sort_charge', 'change_charge', 'change_charge',
+                                               'deepcopy', 'add_op', 'rename_op', 'remove_op'])
+            anyref = (lambda: rng.randrange(ns) if rng.random() < 0.7 else ['g', rng.randrange(4)])
+            if kind == 'group':
+                k = rng.choice([2, 2, 3])
+                idxs = [rng.randrange(ns)] * k if rng.random() < 0.35 else [rng.randrange(ns) for _ in range(k)]
+                if np.prod([dims[i] for i in idxs]) > 64:
+                    continue
+                labels = None if rng.random() < 0.7 else ['a', 'b', 'c'][:k]
+                steps.append(['group', idxs, rng.choice(['same', 'drop', 'independent', 'independent']), labels])
+            elif kind == 'group_sites':
+                k = rng.choice([3, 4])
+                idxs = [rng.randrange(ns)] * k if rng.random() < 0.5 else [rng.randrange(ns) for _ in range(k)]
+                if any(np.prod([dims[i] for i in idxs[g:g + 2]]) > 64 for g in (0, 2)):
+                    continue
+                steps.append(['group_sites', idxs, rng.choice(['same', 'drop', 'independent']), None])
+            elif kind == 'set_common':
+                if ns < 2:
+                    continue
+                idxs = rng.sample(range(ns), rng.randint(2, min(3, ns)))
+                steps.append(['set_common', idxs, rng.choice(['same', 'drop', 'independent', 'sum', 'diff']), rng.random() < 0.8])
+            elif kind == 'sort_charge':
+                steps.append(['sort_charge', anyref()])
+            elif kind == 'change_charge':
+                mode = rng.choice(['drop', 'perm', 'perm', 'mod'])
+                steps.append(['change_charge', rng.randrange(ns), mode] + ([rng.choice([2, 3])] if mode == 'mod' else []))
+            elif kind == 'deepcopy':
+                i = rng.randrange(ns)
+                steps.append(['deepcopy', i])
+                dims.append(dims[i])
+            elif kind == 'add_op':
+                steps.append(['add_op', anyref(), rng.randrange(1000), rng.randrange(1000), rng.random() < 0.5])
+            else:
+                steps.append([kind, anyref(), rng.randrange(1000)])
+        if steps:
+            cases.append({'sites': sites, 'steps': steps, 'seed': ctx.seed * 100000 + cidx})
+    return cases
+
+
+# ---------------------------------------------------------------------------------------------------------------------
+# MPS-level consumers of MPS._term_to_ops_list
+# ---------------------------------------------------------------------------------------------------------------------
+def _is_f(classes, op, k):
+    return op in FERM_OPS.get(classes[k], [])
+
+
+def rand_window_term(rng, classes, lo, hi, parity=None, nmax=3):
+    """term of 1..nmax operators on the absolute sites lo..hi-1 with the requested fermion parity (when the window has a fermionic site)"""
+    term = []
+    for _ in range(rng.randint(1, nmax)):
+        k = rng.randrange(lo, hi)
+        c = classes[k]
+        op = rng.choice(FERM_OPS[c]) if c in FERM_OPS and rng.random() < 0.7 else rng.choice(OTHER_OPS[c])
+        term.append([op, k])
+    fs = [k for k in range(lo, hi) if classes[k] in FERM_OPS]
+    if parity is not None and fs and sum(_is_f(classes, op, k) for op, k in term) % 2 != parity:
+        k = rng.choice(fs)
+        term.insert(rng.randrange(len(term) + 1), [rng.choice(FERM_OPS[classes[k]]), k])
+    return term
+
+
+HC_F = {'FermionSite': {'C': 'Cd', 'Cd': 'C'}, 'SpinHalfFermionSite': {'Cu': 'Cdu', 'Cdu': 'Cu', 'Cd': 'Cdd', 'Cdd': 'Cd'},
+        'SpinHalfHoleSite': {'Cu': 'Cdu', 'Cdu': 'Cu', 'Cd': 'Cdd', 'Cdd': 'Cd'}}
+NEUTRAL = {'FermionSite': ['N', 'dN'], 'SpinHalfFermionSite': ['Nu', 'Ntot', 'Sz'], 'SpinHalfHoleSite': ['Nd', 'Sz'], 'SpinHalfSite': ['Sz'],
+           'SpinSite': ['Sz'], 'BosonSite': ['N'], 'ClockSite': ['Z']}
+
+
+def neutral_term(rng, classes, L):
+    """charge-neutral term of even fermion parity in arbitrary order: 1-2 pairs (f on site i, f^dagger on site j) + uncharged operators"""
+    fs = [k for k in range(L) if classes[k] in FERM_OPS]
+    term = []
+    for _ in range(rng.randint(1, 2)):
+        i, j = rng.choice(fs), rng.choice(fs)
+        if classes[i] != classes[j]:
+            j = i
+        a = rng.choice(FERM_OPS[classes[i]])
+        term += [[a, i], [HC_F[classes[j]][a], j]]
+    if rng.random() < 0.5:
+        k = rng.randrange(L)
+        term.append([rng.choice(NEUTRAL[classes[k]]), k])
+    rng.shuffle(term)
+    return term
+
+
+def mpsterm_cases(rng, ctx):
+    chains = []
+    for cons in ['N', 'parity', 'None']:
+        for L in [3, 4, 5, 6]:
+            chains.append(([spec('FermionSite', conserve=cons)] * L, True))
+    for (cn, cs) in [('N', 'Sz'), ('parity', 'None'), ('None', 'None')]:
+        chains.append(([spec('SpinHalfFermionSite', cons_N=cn, cons_Sz=cs)] * 3, True))
+    chains.append(([spec('SpinHalfHoleSite', cons_N='N', cons_Sz='Sz')] * 4, True))
+    chains.append(([none_spec(c) for c in ['FermionSite', 'SpinHalfSite', 'FermionSite', 'FermionSite', 'SpinHalfSite']], False))
+    chains.append(([none_spec(c) for c in ['SpinHalfFermionSite', 'FermionSite', 'BosonSite', 'FermionSite']], False))
+    cases = []
+    reps = ctx.pick(1, 6)
+    for ci, (sites, homog) in enumerate(chains * reps):
+        L = len(sites)
+        classes = [s_[0] for s_ in sites]
+        jobs = []
+
+        def strengths(n):
+            return [[round(rng.uniform(-1, 1), 3), round(rng.uniform(-1, 1), 3) if rng.random() < 0.5 else 0.0] for _ in range(n)]
+
+        def windows():
+            wL, wR = rng.randint(1, min(2, L - 1)), 1
+            wR = rng.randint(1, min(2, L - wL))
+            a = rng.randint(0, L - wL - wR)
+            starts = list(range(a + wL, L - wR + 1))
+            return wL, wR, a, starts
+
+        # the triple of _term_to_ops_list itself, JW_from_right in {None, False, True}, odd and even terms
+        for jfr in [None, False, True] * 2:
+            lo = rng.randrange(L)
+            term = rand_window_term(rng, classes, lo, rng.randint(lo + 1, L), parity=rng.choice([0, 1, 1, None]), nmax=4)
+            jobs.append({'f': 'ops_list', 'term': term, 'autoJW': True, 'jfr': jfr})
+        jobs.append({'f': 'ops_list', 'term': rand_window_term(rng, classes, 0, L, nmax=4), 'autoJW': False, 'jfr': rng.choice([None, False])})
+        for par in [0, 0, 1]:
+            jobs.append({'f': 'ev_term', 'term': rand_window_term(rng, classes, 0, L, parity=par, nmax=4)})
+        jobs.append({'f': 'terms_sum', 'terms': [neutral_term(rng, classes, L) for _ in range(3)], 'strength': strengths(3)})
+        for (pl, pr) in [(1, 1), (1, 1), (0, 0), (rng.choice([0, 1]), rng.choice([0, 1]))]:
+            wL, wR, a, starts = windows()
+            bs = sorted(rng.sample(starts, min(len(starts), rng.randint(1, 3)))) if homog else [rng.choice(starts)]
+            tL = rand_window_term(rng, classes, a, a + wL, parity=pl)
+            tR = rand_window_term(rng, classes, bs[0], bs[0] + wR, parity=pr)
+            oL, oR = a + rng.choice([0, 0, 1, -1]), bs[0] + rng.choice([0, 0, 1, -1])
+            jobs.append({'f': 'tcf_right', 'term_L': [[o, k - oL] for o, k in tL], 'term_R': [[o, k - oR] for o, k in tR], 'i_L': oL,
+                         'j_R': [oR + (b - bs[0]) for b in bs]})
+        for (pl, pr) in [(1, 1), (0, 0), (rng.choice([0, 1]), rng.choice([0, 1]))]:
+            wL, wR, a, starts = windows()
+            b = rng.choice(starts)
+            as_ = sorted(rng.sample(range(0, b - wL + 1), min(b - wL + 1, rng.randint(1, 3)))) if homog else [a]
+            tL = rand_window_term(rng, classes, as_[0], as_[0] + wL, parity=pl)
+            tR = rand_window_term(rng, classes, b, b + wR, parity=pr)
+            oL, oR = as_[0] + rng.choice([0, 0, 1, -1]), b + rng.choice([0, 0, 1, -1])
+            jobs.append({'f': 'tcf_left', 'term_L': [[o, k - oL] for o, k in tL], 'term_R': [[o, k - oR] for o, k in tR],
+                         'i_L': [oL + (x - as_[0]) for x in as_], 'j_R': oR})
+        for rep in range(4):
+            wL, wR, a, starts = windows()
+            bs = sorted(rng.sample(starts, min(len(starts), rng.randint(1, 3)))) if homog else [rng.choice(starts)]
+            # sums of terms: odd terms on the left must find odd partners on the right (pairs and quadruples of fermionic operators)
+            pars = [1, 1] if rep < 2 else [rng.choice([0, 1]) for _ in range(rng.randint(1, 3))]
+            tLs = [rand_window_term(rng, classes, a, a + wL, parity=p_) for p_ in pars]
+            tRs = [rand_window_term(rng, classes, bs[0], bs[0] + wR, parity=p_) for p_ in pars[::-1] + ([rng.choice([0, 1])] if rep == 3 else [])]
+            oL, oR = a + rng.choice([0, 0, 1, -1]), bs[0] + rng.choice([0, 0, 1, -1])
+            jobs.append({'f': 'tlcf_right', 'terms_L': [[[o, k - oL] for o, k in t] for t in tLs], 'strength_L': strengths(len(tLs)),
+                         'terms_R': [[[o, k - oR] for o, k in t] for t in tRs], 'strength_R': strengths(len(tRs)), 'i_L': oL,
+                         'j_R': [oR + (b - bs[0]) for b in bs]})
+        # (odd terms only on homogeneous chains: apply_local_term lifts the open string to the virtual leg through the charge_to_JW_parity
+        #  of the site the term starts on, which is only meaningful when all sites went through the same charge setup)
+        for par in ([0, 1] if homog else [0, 0]):
+            lo = rng.randrange(L)
+            jobs.append({'f': 'apply', 'term': rand_window_term(rng, classes, lo, rng.randint(lo + 1, L), parity=par), 'canonicalize': rng.random() < 0.7})
+        cases.append({'sites': sites, 'seed': ctx.seed * 1000 + 500 + ci, 'jobs': jobs})
+    return cases
+
+
+def ops_list_coq_case(docs, job, r):
+    ids = {'JW': 0}
+
+    def oid(n):
+        return ids.setdefault(n, len(ids))
+    L = len(docs)
+    its = [(oid(op), i, bool(docs[i % L].needs_JW(op))) for op, i in job['term']]
+    flag = {oid(op): f for (op, i), (_, _, f) in zip(job['term'], its)}
+    ops = [[(oid(n), True if n == 'JW' else flag.get(oid(n), False)) for n in w] for w in r['ops']]
+    jfr = None if job['jfr'] is None else Some(bool(job['jfr']))
+    return coq_lit((its, bool(job['autoJW']), jfr, (ops, int(r['imin']), bool(r['extra']))))
+
+
 def corr_cases(rng, ctx):
     cases = []
     k = 0
@@ -592,14 +817,14 @@ def main(ctx):
 
     _tick(ctx, 'mpo')
     # ------------------------------------------------------------------ GroupedSite
-    gcases = grouped_cases(rng, ctx)
+    gcases = grouped_cases(rng, ctx) + grouped_cases_bookkeeping(rng, ctx)
     gres = run_chunks(ctx, 'grouped', gcases)
     nf17 = nf18 = 0
     for case, r in zip(gcases, gres):
         if r is None:
             continue
         dims = [orc.doc_site(*s).dim for s in case['sites']]
-        tag = [[s[0], s[1]] for s in case['sites']] + [case['charges']]
+        tag = [[s[0], s[1]] for s in case['sites']] + [case['charges'], bool(case.get('share'))]
         if 'runner_error' in r:
             ctx.fail('correspondence', 'grouped runner failed: ' + r['runner_error'][-400:], {'stream': 'grouped', 'case': case})
             continue
@@ -619,12 +844,52 @@ def main(ctx):
             ctx.fail('oracle', 'GroupedSite(%s, charges=%r) raised %s: %s' % ([s[0] for s in case['sites']], case['charges'], r['error'], r.get('msg', '')),
                      {'stream': 'grouped', 'case': case, 'traceback': r.get('tb', '')}, match_key=key)
         elif r['problems']:
-            ctx.fail('oracle', 'GroupedSite(%s, charges=%r): %s' % ([s[0] for s in case['sites']], case['charges'], '; '.join(r['problems'][:4])),
+            ctx.fail('oracle', 'GroupedSite(%s%s, charges=%r): %s'
+                     % (['%s(%s)' % (s[0], ', '.join('%s=%r' % kv for kv in sorted(s[1].items()))) for s in case['sites']],
+                        ' [equal entries = the same Site object]' if case.get('share') else '', case['charges'], '; '.join(r['problems'][:4])),
                      {'stream': 'grouped', 'case': case}, match_key='C12:GroupedSite:operators')
     hist['grouped_drop_heterogeneous_IndexError'] = nf17
     hist['grouped_same_after_set_common_charges_TypeError'] = nf18
 
     _tick(ctx, 'grouped')
+    # ------------------------------------------------------------------ basis bookkeeping through sequences of site-transforming calls
+    bcases = book_cases(rng, ctx, ctx.pick(260, 2600) * boost)
+    bres = run_chunks(ctx, 'book', bcases)
+    nperm = nf121 = 0
+    kinds = {}
+    for case, r in zip(bcases, bres):
+        if r is None:
+            continue
+        if 'runner_error' in r:
+            ctx.fail('correspondence', 'book runner failed: ' + r['runner_error'][-400:], {'stream': 'book', 'case': case})
+            continue
+        applied = r.get('applied', [])
+        for st_, a in zip(case['steps'], applied):
+            if a == 'ok':
+                kinds[st_[0]] = kinds.get(st_[0], 0) + 1
+        nperm += bool(r.get('permuted'))
+        ctx.count('book', [case['sites'], case['steps']], nontrivial=bool(r.get('permuted')) or applied.count('ok') >= 2,
+                  sample={'sites': [[s_[0], s_[1]] for s_ in case['sites']], 'steps': case['steps'], 'applied': applied, 'sites_verified': r.get('verified')})
+        if 'error' in r:
+            e = r['error']
+            key = 'C12:book:raises:' + str(e['op'][0])
+            if e['op'][0] == 'set_common' and e['op'][3] is False and e['error'] == 'UnboundLocalError' and "'leg'" in e['msg'] \
+                    and 'site.change_charge(leg, perm_flat)' in e.get('tb', ''):
+                key = F121_KEY
+                nf121 += 1
+            ctx.fail('oracle', 'site-transforming call %s (step %d of %s on %s) raised %s: %s'
+                     % (e['op'], e['step'], case['steps'], [s_[0] for s_ in case['sites']], e['error'], e['msg']),
+                     {'stream': 'book', 'case': {'sites': case['sites'], 'steps': case['steps'][:e['step'] + 1], 'seed': case['seed']},
+                      'traceback': e.get('tb', '')}, match_key=key)
+        for pr in r.get('problems', [])[:1]:
+            ctx.fail('oracle', 'after %s (step %d) the site #%d = %s no longer is what the documentation says (read through its state labels): %s'
+                     % (pr['op'], pr['step'], pr['site'], pr['tag'], '; '.join(pr['probs'])),
+                     {'stream': 'book', 'case': {'sites': case['sites'], 'steps': case['steps'][:pr['step'] + 1], 'seed': case['seed']}},
+                     match_key='C12:book:' + (pr['op'][0] if isinstance(pr['op'], list) else str(pr['op'])))
+    hist['book_steps_applied'] = kinds
+    hist['set_common_charges_sort_charge_False_UnboundLocalError'] = nf121
+    hist['book_cases_with_relabelled_basis'] = nperm
+    _tick(ctx, 'book')
     # ------------------------------------------------------------------ correlation_function(autoJW)
     ccases = corr_cases(rng, ctx)
     cres = run_chunks(ctx, 'corr', ccases, n=len(ccases))
@@ -643,13 +908,89 @@ def main(ctx):
                 ctx.fail('oracle', 'correlation_function(%r, %r)[%s] differs from dense <psi|A_i B_j|psi> with Jordan-Wigner strings by %.2e'
                          % (x['a'], x['b'], x['arg'], x['diff']), {'stream': 'corr', 'case': case, 'pair': [x['a'], x['b']]}, match_key='C12:corr:dense')
     _tick(ctx, 'corr')
+    # ------------------------------------------------------------------ MPS-level consumers of _term_to_ops_list
+    pcases = mpsterm_cases(rng, ctx) * 1
+    pres = run_chunks(ctx, 'mpsterm', pcases, n=min(len(pcases), common.NPROC))
+    tol_cases, tol_src = [], []
+    fcount = {}
+    for case, rr in zip(pcases, pres):
+        if rr is None:
+            continue
+        if isinstance(rr, dict):
+            ctx.fail('correspondence', 'mpsterm runner failed: ' + rr.get('runner_error', '')[-400:], {'stream': 'mpsterm', 'sites': case['sites']})
+            continue
+        docs = [orc.doc_site(*s_) for s_ in case['sites']]
+        charged = all(any(v not in ('None', None) for k_, v in s_[1].items() if k_.startswith('cons')) for s_ in case['sites'])
+        for job, x in zip(case['jobs'], rr):
+            f = job['f']
+            rep = {'stream': 'mpsterm', 'sites': case['sites'], 'seed': case['seed'], 'job': job}
+            err = x.get('error')
+            if err is not None and not err.startswith('ValueError'):
+                ctx.count('mpsterm', [case['sites'], case['seed'], job], nontrivial=True)
+                ctx.fail('oracle', '%s raised %s on %s' % (f, err, job), dict(rep, traceback=x.get('tb')), match_key='C12:mpsterm:raises:' + f)
+                continue
+            if f == 'ops_list':
+                ctx.count('mpsterm', [case['sites'], job], nontrivial=len(job['term']) > 1)
+                if err:
+                    ctx.fail('oracle', '_term_to_ops_list raised %s on %s' % (err, job), rep, match_key='C12:mpsterm:raises:ops_list')
+                    continue
+                fcount[f] = fcount.get(f, 0) + 1
+                if x.get('dense_diff', 0.0) > TOL:
+                    ctx.fail('oracle', '_term_to_ops_list(%s, autoJW=True, 0, JW_from_right=%s) returned ops=%s, i_min=%d, has_extra_JW=%s: as dense '
+                             'operators (JW string to the left iff has_extra_JW%s) this is not the Jordan-Wigner product of the term (max diff %.2e)'
+                             % (job['term'], job['jfr'], x['ops'], x['imin'], x['extra'],
+                                ', JW_from_right := the returned flag' if job['jfr'] is None else '', x['dense_diff']), rep,
+                             match_key='C12:mpsterm:ops_list:dense')
+                tol_cases.append(ops_list_coq_case(docs, job, x))
+                tol_src.append((case, job, x))
+                continue
+            odd = bool(x.get('parity', 0))
+            if f in ('ev_term', 'tcf_right', 'tcf_left', 'terms_sum', 'tlcf_right'):
+                if err:
+                    # documented: an odd total number of Jordan-Wigner operators is refused
+                    ctx.count('mpsterm', [case['sites'], case['seed'], job], nontrivial=False)
+                    if not (odd and f in ('ev_term', 'tcf_right', 'tcf_left')):
+                        ctx.fail('oracle', '%s refused %s: %s' % (f, job, err), rep, match_key='C12:mpsterm:refused:' + f)
+                    continue
+                got, want = np.array([complex(*z) for z in x['got']]), np.array([complex(*z) for z in x['want']])
+                ctx.count('mpsterm', [case['sites'], case['seed'], job], nontrivial=bool(np.max(np.abs(want)) > 1e-8))
+                fcount[f] = fcount.get(f, 0) + 1
+                if odd and f in ('ev_term', 'tcf_right', 'tcf_left'):
+                    ctx.fail('oracle', '%s accepted a term with an odd number of Jordan-Wigner operators: %s' % (f, job), rep,
+                             match_key='C12:mpsterm:parity:' + f)
+                elif got.shape != want.shape or np.max(np.abs(got - want)) > TOL:
+                    ctx.fail('oracle', '%s on %s with %s: got %s, the dense Jordan-Wigner operators give %s'
+                             % (f, [s_[0] for s_ in case['sites']] + [case['sites'][0][1]], {k_: v for k_, v in job.items() if k_ != 'f'},
+                                [complex(np.round(z, 10)) for z in got], [complex(np.round(z, 10)) for z in want]), rep,
+                             match_key='C12:mpsterm:dense:' + f)
+            elif f == 'apply':
+                ctx.count('mpsterm', [case['sites'], case['seed'], job], nontrivial=x.get('want_norm', 0) > 1e-8 and not err)
+                if err:
+                    ok = ('destroys state' in err and x.get('want_norm', 1.0) < 1e-10) or (odd and not charged and 'JW' in err)
+                    if not ok:
+                        ctx.fail('oracle', 'apply_local_term refused %s: %s' % (job, err), rep, match_key='C12:mpsterm:refused:apply')
+                    continue
+                fcount[f] = fcount.get(f, 0) + 1
+                if x['diff'] > 1e-9:
+                    ctx.fail('oracle', 'apply_local_term(%s): the resulting state differs from (dense Jordan-Wigner operator of the term)|psi> by %.2e'
+                             % (job['term'], x['diff']), rep, match_key='C12:mpsterm:dense:apply')
+    bad, err = common.coq_failing_indices('cases_c12_tol', ['Base.Prelude', 'Model.JW', 'Model.JW2'], 'check_tol_case', tol_cases)
+    if err:
+        ctx.fail('correspondence', 'model evaluation failed (ops_list): ' + err[-600:], None)
+    for b in bad[:5]:
+        case, job, x = tol_src[b]
+        ctx.fail('correspondence', 'Model/JW.v term_to_ops_list and MPS._term_to_ops_list disagree on %s: impl %s' % (job, x),
+                 {'stream': 'mpsterm', 'sites': case['sites'], 'job': job, 'impl': x})
+    ctx.cov['traces_validated_against_impl'] += len(tol_cases)
+    hist['mpsterm_calls'] = fcount
+    _tick(ctx, 'mpsterm')
     ctx.cov['input_distribution'] = hist
     ctx.assumptions += [
         'C12 tables: irrational entries (sqrt, roots of unity) are exported as squared entries / exponents after checking that the float '
         'value is within 1e-9 (squares) / 1e-13 (roots) of the exact value; algebra theorems for those operators are certificates over '
         'the squared entries (coq/Model/SiteTab.v)',
         'C12 JW model: operator names are abstract ids with a need_JW flag; multiplication of names on one site is list concatenation',
-        'C12 not in Coq: GroupedSite, set_common_charges, MPOGraph construction and correlation_function contraction (dense oracle only)',
+        'C12 not in Coq: GroupedSite, set_common_charges, change_charge, MPOGraph construction and the contractions of correlation_function / term_(list_)correlation_function (dense oracle only)',
     ]
     return ctx.finish(RULE, 'theorems of coq/Props/C12.v over the regenerated site table and for all terms; Model/JW.v run against '
                       'order_combine_term / handle_JW on every generated term; dense numpy oracle from the documentation for tables, terms, '
@@ -660,4 +1001,7 @@ RULE = ('table: every configuration of G_sites.v + extra parameters (one case pe
         'terms: random terms of 1-8 operators on heterogeneous chains of 1-6 sites (repeated sites, indices outside the unit cell, odd and '
         'even fermion parity), non-trivial when >= 2 operators need JW and the product is non-zero; mpo: all ordered pairs of fermionic '
         'operators on chains of 2-6 sites + random quadruples; grouped: all pairs + random triples of 10 heterogeneous sites x 3 charge '
-        'policies, non-trivial when heterogeneous; corr: fermionic pairs on random entangled states.  distinct = distinct canonical inputs.')
+        'policies (+ sort_charge=False sites, [site]*n), non-trivial when heterogeneous; book: random sequences of 2-6 site-transforming calls '
+        'on 1-3 sites of 21 configurations (5 with sort_charge=False), non-trivial when some state labels changed or >= 2 calls applied; '
+        'corr: fermionic pairs on random entangled states; mpsterm: 6 ops_list triples + 17 calls of the MPS-level term functions per chain '
+        '(18 chains, odd-odd / even-even / mixed parities), non-trivial when the dense value is non-zero.  distinct = distinct canonical inputs.')
